@@ -272,7 +272,53 @@ def rule_chordreflex(ctx):
         yield o
 
 
+def rule_melodytwin(ctx):
+    """to_cent_voicing normalises both series the same way (zero-time padding, |f|, voicing, cents) before aligning them."""
+    R = "C02.MELODYTWIN"
+    f = ctx.program.func("melody.to_cent_voicing", R)
+    s = ctx.S.get(f.qual)
+    fv = [c for c in s.calls() if c.callee == "melody.freq_to_voicing"]
+    hz = [c for c in s.calls() if c.callee == "melody.hz2cents"]
+    need(len(fv) == 2 and len(hz) == 2, R, "to_cent_voicing: two freq_to_voicing and two hz2cents calls expected")
+    ref = [c for c in fv if "ref_freq" in tm.params_of(c.args[0])]
+    est = [c for c in fv if "est_freq" in tm.params_of(c.args[0])]
+    need(len(ref) == 1 and len(est) == 1, R, "to_cent_voicing: reference / estimate normalisation not found")
+    mp = {"ref_time": "est_time", "ref_freq": "est_freq", "ref_reward": "est_voicing"}
+    sub = {k: tm.param(v) for k, v in mp.items()}
+    M = Mirror(f, subst=sub)
+    M0 = Mirror(f)
+    for i, what in ((0, "frequencies"), (1, "voicing")):
+        a, b = ref[0].args[i], est[0].args[i]
+        good = M.norm(a) is M0.norm(b)
+        yield ob(R, f, "melody.to_cent_voicing:padding-%s" % what, good, "the estimate's %s are padded at time 0 exactly like the reference's (np.insert(x, 0, x[0]) when the first timestamp is > 0)" % what if good else "estimate %s are prepared as %s but the reference's as %s" % (what, tm.show(b, 4), tm.show(a, 4)))
+    # times: both padded with 0
+    rs = [c for c in s.calls() if c.callee == "melody.resample_melody_series"]
+    tref = [c.args[0] for c in rs if "ref_time" in tm.params_of(c.args[0])]
+    test = [c.args[0] for c in rs if "est_time" in tm.params_of(c.args[0])]
+    good = bool(test) and (not tref or M.norm(tref[0]) is M0.norm(test[0]))
+    yield ob(R, f, "melody.to_cent_voicing:padding-times", good, "both time bases get a leading 0 when they start later")
+    base = all(len(c.args) == 2 and c.args[1].op == "param" and c.args[1].a[0] == "base_frequency" for c in hz)
+    yield ob(R, f, "melody.to_cent_voicing:same-base", base, "both sides are converted to cents with the same base_frequency")
+    # the un-resampled estimate goes onto the reference's (padded) time base
+    last = [c for c in rs if "est_time" in tm.params_of(c.args[0]) and len(c.args) >= 4 and "ref_time" in tm.params_of(c.args[3])]
+    yield ob(R, f, "melody.to_cent_voicing:onto-reference-timebase", len(last) == 1 and (not tref or last[0].args[3] is tref[0] or "hop" not in tm.params_of(last[0].args[3])), "without hop the estimate is resampled onto the reference times")
+
+
+def rule_shared(ctx):
+    from . import c01, c10
+
+    for o in c10.rule_tablesafe(ctx):
+        o.rule = "C02.ENCODEPURE"
+        yield o
+    for o in c01.rule_guardtable(ctx):
+        if o.construct.startswith("transcription_velocity.match_notes"):
+            o.rule = "C02.VELOCITYFLOOR"
+            yield o
+
+
 RULES = [
+    ("C02.MELODYTWIN", 5, rule_melodytwin),
+    ("C02.ENCODEPURE", 10, rule_shared),
     ("C02.MIRRORPIPE", 125, rule_mirrorpipe),
     ("C02.REFLEX", 7, rule_reflex),
     ("C02.PERFECTCONST", 7, rule_perfectconst),
